@@ -526,7 +526,7 @@ func resetClearsOnly(c *core.Ctx, r *core.Report, only string) {
 		})},
 		{"teardownStack=empty", plainStore(handleFields(c).stack, func(v ssa.Value) bool {
 			d := an.D().Of(v)
-			return strings.HasPrefix(d, "local:") || strings.HasPrefix(d, "make(slice") || d == "nil" || strings.Contains(d, "[:]") || strings.Contains(d, "[:0]")
+			return strings.HasPrefix(d, "local:") || strings.HasPrefix(d, "make(slice") || d == "nil" || strings.Contains(d, "[:]") || strings.Contains(d, "[:0]") || freshEmptySlice(reset, v)
 		})},
 	}
 	for _, t := range targets {
